@@ -153,6 +153,10 @@ func Bytes(data any, args ...any) []byte {
 	if wr == nil {
 		wr, _ = writerPool.Get().(*Writer)
 		defer writerPool.Put(wr)
+		// The buffer of a pooled Writer is handed to the next caller of any
+		// of the package functions, possibly in another goroutine. Return
+		// a copy.
+		return append([]byte{}, wr.MustSEN(data)...)
 	}
 	return wr.MustSEN(data)
 }
